@@ -20,14 +20,14 @@ def Coord.afterJoin : Coord → Bool
   | .returned false => true
   | _ => false
 
-structure Inv4 (g : Graph) (s : St) : Prop where
+structure Inv4 (g : Graph) (cfg : Cfg) (s : St) : Prop where
   srcEnq  : ∀ x ∈ sources g, x ∈ s.enq
   relEnq  : ∀ y, g.preds y ≠ [] → (∀ p ∈ g.preds y, (p, y) ∈ s.rel) → y ∈ s.enq
   okdRel  : ∀ x, x ∈ s.retired → x ∈ s.okd → ∀ y ∈ g.succs x, (x, y) ∈ s.rel
   retWhy  : ∀ x, x ∈ s.retired → x ∈ s.okd ∨ x ∈ s.failed ∨ x ∈ s.skipped
   quiet   : s.coord.afterJoin = true → (∀ x, Item.node x ∉ s.queue) ∧ (∀ w ∈ s.ws, w.node? = none) ∧
               (∀ w ∈ s.ws, w = W.idle ∨ w = W.held .done ∨ w = W.finishing true ∨ w = W.exited)
-  skipWhy : s.skipped ≠ [] → s.failed ≠ [] ∨ s.coord.intr = true
+  skipWhy : s.skipped ≠ [] → (∃ k, cfg.maxErr = some k ∧ k < s.errs) ∨ s.coord.intr = true
   unfZero : s.coord = .stopping false → s.unfinished = 0
 
 theorem countP_ge_of_all_mem {rel : List (Nat × Nat)} {y : Nat} {ps : List Nat} (hn : ps.Nodup)
@@ -43,7 +43,7 @@ theorem countP_ge_of_all_mem {rel : List (Nat × Nat)} {y : Nat} {ps : List Nat}
   have := (List.subperm_of_subset hnd hsub).length_le
   simpa using this
 
-theorem inv4_init (g : Graph) : Inv4 g (init g) := by
+theorem inv4_init (g : Graph) (cfg : Cfg) : Inv4 g cfg (init g) := by
   constructor <;> simp [init, Coord.afterJoin, Coord.intr]
   intro y hne hall
   cases hp : g.preds y with
@@ -51,8 +51,8 @@ theorem inv4_init (g : Graph) : Inv4 g (init g) := by
   | cons p t => have := hall p (by rw [hp]; simp); exact absurd this (by simp)
 
 theorem inv4_step {g : Graph} (hg : g.WF) {cfg : Cfg} (hwk : 1 ≤ cfg.workers) {s s' : St} (l : Label)
-    (hi : Inv g s) (h2 : Inv2 cfg s) (h3 : Inv3 cfg s) (h4 : Inv4 g s)
-    (h : step? g cfg s l = some s') : Inv4 g s' := by
+    (hi : Inv g s) (h2 : Inv2 cfg s) (h3 : Inv3 cfg s) (h4 : Inv4 g cfg s)
+    (h : step? g cfg s l = some s') : Inv4 g cfg s' := by
   cases l with
   | spawn =>
     simp only [step?] at h
@@ -148,9 +148,7 @@ theorem inv4_step {g : Graph} (hg : g.WF) {cfg : Cfg} (hwk : 1 ≤ cfg.workers) 
             | putting k i => cases i <;> simp_all [Coord.afterJoin, Coord.intr]
             | joining i => cases i <;> simp_all [Coord.afterJoin, Coord.intr]
             | returned i => cases i <;> simp_all [Coord.afterJoin, Coord.intr]
-          · left
-            intro hf
-            have := h2.errsLen; rw [hf] at this; simp at this; omega
+          · left; exact ⟨k, hk, hlt⟩
       · cases h
         refine ⟨h4.srcEnq, h4.relEnq, h4.okdRel, h4.retWhy, ?_, h4.skipWhy, h4.unfZero⟩
         intro ha; simp only [setW] at ha; rw [hnq] at ha; cases ha
@@ -211,7 +209,11 @@ theorem inv4_step {g : Graph} (hg : g.WF) {cfg : Cfg} (hwk : 1 ≤ cfg.workers) 
           · right; right; exact h1
         · right; left; right; exact hy
       · intro ha; simp only [setW] at ha; rw [hnq] at ha; cases ha
-      · intro _; left; simp
+      · intro hs
+        simp only [setW] at hs
+        rcases h4.skipWhy hs with ⟨k, hk, hlt⟩ | h1
+        · left; exact ⟨k, hk, by simp only [setW]; omega⟩
+        · right; exact h1
     · cases h
   | release w y =>
     simp only [step?] at h
@@ -434,9 +436,9 @@ theorem inv4_step {g : Graph} (hg : g.WF) {cfg : Cfg} (hwk : 1 ≤ cfg.workers) 
     · cases h
 
 theorem inv4_reach {g : Graph} (hg : g.WF) {cfg : Cfg} (hw : 1 ≤ cfg.workers) {s : St} (h : Reach g cfg s) :
-    Inv4 g s := by
+    Inv4 g cfg s := by
   induction h with
-  | init => exact inv4_init g
+  | init => exact inv4_init g cfg
   | step l hr hs ih => exact inv4_step hg hw l (inv_reach hg hr) (inv2_reach hw hr) (inv3_reach hw hr) ih hs
 
 end Uberjob.Engine
